@@ -9,6 +9,7 @@ import (
 	"fmt"
 	"go/token"
 	"go/types"
+	"strings"
 
 	"golang.org/x/tools/go/ssa"
 )
@@ -1292,4 +1293,668 @@ func writesThroughOneParam(c *Ctx, fn *ssa.Function, param *ssa.Parameter, depth
 		}
 	})
 	return msg, pos
+}
+
+// ---------------------------------------------------------------------------------------
+// C15 — binding parameters cannot change the statement (structural clauses)
+
+func init() {
+	register("C15", "Clauses decided (shape of the placeholder splice, necessary for the statement): (types) every value stored into Stmt.args has a dynamic type that is either nil, a Go numeric type (rendered by %v as a numeric literal), or a type for which util.ItoString answers quote=true (read out of its type switch: []byte) — the writer's table (bindStmtArgs, handleStmtSendLongData) and the reader's table (ItoString) agree, so no byte-carrying value is spliced bare; (splice) in Stmt.GetRewriteSQL the text written for a placeholder is, on every path, escapeSQL(ItoString(args[index]).text), wrapped in the quote character exactly on the quote==true edge, and nothing else reaches the buffer for a placeholder; (escape) escapeSQL prefixes a backslash to every byte of its escaped set, and that set contains the backslash and the quote character GetRewriteSQL wraps with (sibling agreement of the two constants); (exec) in handleStmtExecute the SQL handed to handleQuery for a statement with parameters is GetRewriteSQL's result, dominated by bindStmtArgs succeeding. NOT decided: that backslash escaping denotes the same bytes under every sql_mode (NO_BACKSLASH_ESCAPES), numeric formatting of floats (NaN/Inf, precision), character-set dependent multi-byte sequences — all value-level.",
+		ruleC15)
+}
+
+func ruleC15(c *Ctx, r *Report) {
+	const rule = "MP-C15"
+	r.floor(rule, 12)
+	fArgs := c.Field(serverRel, "Stmt", "args")
+	ito := c.Func("util", "ItoString")
+	esc := c.Func(serverRel, "escapeSQL")
+	rewrite := c.Method(serverRel, "Stmt", "GetRewriteSQL")
+	exec := c.seMethod("handleStmtExecute")
+	bind := c.seMethod("bindStmtArgs")
+	hq := c.seMethod("handleQuery")
+	if fArgs == nil || ito == nil || esc == nil || rewrite == nil || exec == nil || bind == nil || hq == nil {
+		r.undecided(rule, serverRel, "anchor", "-", "Stmt.args / util.ItoString / escapeSQL / GetRewriteSQL / handleStmtExecute / bindStmtArgs / handleQuery not all found")
+		return
+	}
+	// the splice may live in a function GetRewriteSQL delegates to (GetRewriteSQLInMode): follow single delegations
+	hasSplice := func(fn *ssa.Function) bool {
+		found := false
+		allInstrs(fn, func(in ssa.Instruction) {
+			if b, ok := in.(*ssa.BinOp); ok && b.Op == token.EQL {
+				if s, ok := constString(b.Y); ok && s == "?" {
+					found = true
+				}
+			}
+		})
+		return found
+	}
+	rewriteFns := map[*ssa.Function]bool{rewrite: true}
+	for d := 0; d < 3 && !hasSplice(rewrite); d++ {
+		var next *ssa.Function
+		n := 0
+		allInstrs(rewrite, func(in ssa.Instruction) {
+			if cc := callCommon(in); cc != nil {
+				if f := staticCallee(cc); f != nil && c.InModule(f) {
+					next = f
+					n++
+				}
+			}
+		})
+		if n != 1 {
+			break
+		}
+		rewrite = next
+		rewriteFns[next] = true
+	}
+	// ---- reader's table: types ItoString quotes
+	quoted := map[string]bool{}
+	allInstrs(ito, func(in ssa.Instruction) {
+		ta, ok := in.(*ssa.TypeAssert)
+		if !ok || !ta.CommaOk {
+			return
+		}
+		okv := extractOf(ta, 1)
+		if okv == nil {
+			return
+		}
+		all, any := true, false
+		for _, ret := range returnsOf(ito) {
+			if !dominatedByCond(ret, okv, true) {
+				continue
+			}
+			any = true
+			vals, zero := retValues(ret, 0)
+			if zero || len(vals) != 1 {
+				all = false
+				continue
+			}
+			if b, ok := constBool(vals[0]); !ok || !b {
+				all = false
+			}
+		}
+		if any && all {
+			quoted[types.TypeString(ta.AssertedType, shortQual)] = true
+		}
+	})
+	if len(quoted) == 0 {
+		r.viol(rule, c.FuncName(ito), "types:quoted-set", c.Pos(ito.Pos()), "util.ItoString asks for quotes for no type at all: byte strings bound to placeholders are spliced bare")
+	} else {
+		var qs []string
+		for k := range quoted {
+			qs = append(qs, k)
+		}
+		sortStrings(qs)
+		r.ok(rule, c.FuncName(ito), "types:quoted-set", c.Pos(ito.Pos()), "ItoString asks for quotes for: "+strings.Join(qs, ", "))
+	}
+	// the default (unquoted) rendering is %v
+	// ---- writer's table: dynamic types stored into Stmt.args elements
+	isArgsSlice := func(v ssa.Value) bool {
+		v = stripValue(resolveLoad(stripValue(v)))
+		return loadedField(v) == fArgs
+	}
+	nw := 0
+	seenW := map[string]bool{}
+	for _, fn := range c.Funcs {
+		if c.IsMockFunc(fn) || fn.Pkg == nil || !strings.HasSuffix(fn.Pkg.Pkg.Path(), serverRel) {
+			continue
+		}
+		allInstrs(fn, func(in ssa.Instruction) {
+			st, ok := in.(*ssa.Store)
+			if !ok {
+				return
+			}
+			ia, ok := st.Addr.(*ssa.IndexAddr)
+			if !ok || !isArgsSlice(ia.X) {
+				return
+			}
+			for _, leaf := range phiLeaves(st.Val) {
+				tname := ""
+				verdict := ""
+				switch x := leaf.(type) {
+				case *ssa.Const:
+					if x.IsNil() {
+						tname, verdict = "nil", "ok"
+					}
+				case *ssa.MakeInterface:
+					t := x.X.Type()
+					tname = types.TypeString(t, shortQual)
+					if b, ok := t.Underlying().(*types.Basic); ok && b.Info()&(types.IsInteger|types.IsFloat) != 0 {
+						verdict = "ok"
+					} else if quoted[tname] {
+						verdict = "ok"
+					} else {
+						verdict = "bad"
+					}
+				}
+				// stripValue looks through MakeInterface: recover it from the raw operand
+				if tname == "" {
+					if mi := findMakeInterface(st.Val, leaf); mi != nil {
+						t := mi.X.Type()
+						tname = types.TypeString(t, shortQual)
+						if b, ok := t.Underlying().(*types.Basic); ok && b.Info()&(types.IsInteger|types.IsFloat) != 0 {
+							verdict = "ok"
+						} else if quoted[tname] {
+							verdict = "ok"
+						} else {
+							verdict = "bad"
+						}
+					}
+				}
+				key := c.FuncName(fn) + "|" + tname
+				if tname != "" && seenW[key] {
+					continue
+				}
+				seenW[key] = true
+				nw++
+				cons := "types:stored:" + tname
+				switch verdict {
+				case "ok":
+					why := "numeric: rendered as a number"
+					if tname == "nil" {
+						why = "rendered as NULL"
+					} else if quoted[tname] {
+						why = "quoted and escaped by the reader"
+					}
+					r.ok(rule, c.FuncName(fn), cons, c.Pos(st.Pos()), "a "+tname+" is bound: "+why)
+				case "bad":
+					r.viol(rule, c.FuncName(fn), cons, c.Pos(st.Pos()), "a value of dynamic type "+tname+" is bound to a placeholder, but util.ItoString renders that type without quotes: its bytes are spliced into the statement as SQL text")
+				default:
+					r.undecided(rule, c.FuncName(fn), fmt.Sprintf("types:stored:?#%d", nw), c.Pos(st.Pos()), "cannot determine the dynamic type of a value stored into Stmt.args")
+				}
+			}
+		})
+	}
+	if nw < 8 {
+		r.undecided(rule, serverRel, "types:writers", "-", fmt.Sprintf("expected the typed stores of bindStmtArgs and handleStmtSendLongData, found %d", nw))
+	}
+
+	// ---- splice
+	quoteChars := map[byte]bool{}
+	{
+		name := c.FuncName(rewrite)
+		var placeholderWrites []*ssa.Call
+		var phEdges []CondEdge
+		allInstrs(rewrite, func(in ssa.Instruction) {
+			if b, ok := in.(*ssa.BinOp); ok && b.Op == token.EQL {
+				if s, ok := constString(b.Y); ok && s == "?" {
+					for _, e := range condEdges(b) {
+						if e.Val {
+							phEdges = append(phEdges, e)
+						}
+					}
+				}
+			}
+		})
+		allInstrs(rewrite, func(in ssa.Instruction) {
+			call, ok := in.(*ssa.Call)
+			if !ok {
+				return
+			}
+			f := staticCallee(&call.Call)
+			if f == nil || f.Name() != "WriteString" && f.Name() != "Write" && f.Name() != "WriteByte" {
+				return
+			}
+			if len(phEdges) > 0 && edgesDominate(rewrite, phEdges, call.Block()) {
+				placeholderWrites = append(placeholderWrites, call)
+			}
+		})
+		if len(placeholderWrites) != 1 {
+			r.undecided(rule, name, "splice:placeholder-write", c.Pos(rewrite.Pos()), fmt.Sprintf("expected exactly one buffer write on the `== \"?\"` edge, found %d", len(placeholderWrites)))
+		} else {
+			w := placeholderWrites[0]
+			arg := w.Call.Args[len(w.Call.Args)-1]
+			// classify a leaf: escaped (contains escapeSQL(ItoString#1(args[..]))), with/without quotes
+			var itoCall *ssa.Call
+			escapedCore := func(v ssa.Value) bool {
+				call, ok := stripValue(v).(*ssa.Call)
+				if !ok || !callsFunc(&call.Call, esc) {
+					return false
+				}
+				ex, ok := stripValue(resolveLoad(stripValue(call.Call.Args[0]))).(*ssa.Extract)
+				if !ok || ex.Index != 1 {
+					return false
+				}
+				ic, ok := ex.Tuple.(*ssa.Call)
+				if !ok || !callsFunc(&ic.Call, ito) {
+					return false
+				}
+				// the argument is an element of s.args
+				u, ok := stripValue(ic.Call.Args[0]).(*ssa.UnOp)
+				if !ok || u.Op != token.MUL {
+					return false
+				}
+				ia, ok := u.X.(*ssa.IndexAddr)
+				if !ok || !isArgsSlice(ia.X) {
+					return false
+				}
+				itoCall = ic
+				return true
+			}
+			type leafKind struct {
+				ok, quotedBoth bool
+			}
+			classify := func(v ssa.Value) leafKind {
+				v = stripValue(v)
+				if escapedCore(v) {
+					return leafKind{true, false}
+				}
+				// concat chain of constants and exactly one escaped core
+				var parts []ssa.Value
+				var walk func(y ssa.Value)
+				walk = func(y ssa.Value) {
+					y = stripValue(y)
+					if b, ok := y.(*ssa.BinOp); ok && b.Op == token.ADD {
+						walk(b.X)
+						walk(b.Y)
+						return
+					}
+					parts = append(parts, y)
+				}
+				walk(v)
+				cores, okAll := 0, true
+				var first, last string
+				for i, p := range parts {
+					if s, ok := constString(p); ok {
+						if i == 0 {
+							first = s
+						}
+						if i == len(parts)-1 {
+							last = s
+						}
+						continue
+					}
+					if escapedCore(p) {
+						cores++
+						continue
+					}
+					okAll = false
+				}
+				if !okAll || cores != 1 || len(parts) != 3 || first == "" || first != last || len(first) != 1 {
+					return leafKind{false, false}
+				}
+				quoteChars[first[0]] = true
+				return leafKind{true, true}
+			}
+			good, why := true, ""
+			var quoteVal ssa.Value
+			check := func(v ssa.Value, pred, blk *ssa.BasicBlock) {
+				k := classify(v)
+				if !k.ok {
+					good, why = false, "a value other than escapeSQL(ItoString(args[index])) (optionally wrapped in one quote character on both sides) reaches the statement text for a placeholder"
+					return
+				}
+				if itoCall != nil {
+					quoteVal = extractOf(itoCall, 0)
+				}
+				if quoteVal == nil {
+					good, why = false, "the quote flag of ItoString is not used"
+					return
+				}
+				// truth of quote on this edge
+				val, known := false, false
+				if pred != nil {
+					if iff, ok := pred.Instrs[len(pred.Instrs)-1].(*ssa.If); ok {
+						for _, e := range condEdges(quoteVal) {
+							if e.If == iff && pred.Succs[e.Succ] == blk {
+								val, known = e.Val, true
+							}
+						}
+					}
+					if !known {
+						for _, e := range condEdges(quoteVal) {
+							if edgeDominates(rewrite, e.If.Block(), e.Succ, pred) {
+								val, known = e.Val, true
+							}
+						}
+					}
+				}
+				if !known {
+					good, why = false, "cannot tell whether the quote flag is set where this text is chosen"
+					return
+				}
+				if val != k.quotedBoth {
+					if val {
+						good, why = false, "on the quote==true edge the escaped text is written without the surrounding quotes: a byte string is spliced as SQL text"
+					} else {
+						good, why = false, "quotes are added although ItoString did not ask for them"
+					}
+				}
+			}
+			if phi, ok := stripValue(arg).(*ssa.Phi); ok {
+				for i, e := range phi.Edges {
+					check(e, phi.Block().Preds[i], phi.Block())
+				}
+			} else {
+				k := classify(arg)
+				if !k.ok {
+					good, why = false, "a value other than escapeSQL(ItoString(args[index])) reaches the statement text for a placeholder"
+				} else if !k.quotedBoth {
+					good, why = false, "the placeholder text is never quoted"
+				} else {
+					good, why = false, "the placeholder text is always quoted, whatever ItoString answered (NULL and numbers become strings)"
+				}
+			}
+			if good {
+				r.ok(rule, name, "splice:escaped-and-quoted", c.Pos(w.Pos()), "the placeholder text is escapeSQL(ItoString(args[index])), wrapped in quotes exactly on the quote==true edge")
+			} else {
+				r.viol(rule, name, "splice:escaped-and-quoted", c.Pos(w.Pos()), why)
+			}
+		}
+	}
+	// ---- escape
+	{
+		name := c.FuncName(esc)
+		set := map[byte]bool{}
+		var edges []CondEdge
+		allInstrs(esc, func(in ssa.Instruction) {
+			b, ok := in.(*ssa.BinOp)
+			if !ok || b.Op != token.EQL {
+				return
+			}
+			k, ok := constInt(b.Y)
+			if !ok {
+				return
+			}
+			set[byte(k)] = true
+			for _, e := range condEdges(b) {
+				if e.Val {
+					edges = append(edges, e)
+				}
+			}
+		})
+		// on every recognised-byte edge a constant escape byte (backslash, or the quote itself when doubling) is appended
+		var prefixAppends []ssa.Instruction
+		prefixes := map[byte]bool{}
+		allInstrs(esc, func(in ssa.Instruction) {
+			call, ok := in.(*ssa.Call)
+			if !ok {
+				return
+			}
+			if b, ok := call.Call.Value.(*ssa.Builtin); !ok || b.Name() != "append" {
+				return
+			}
+			for _, v := range variadicElems(call.Call.Args[1]) {
+				if k, ok := constInt(v); ok {
+					prefixAppends = append(prefixAppends, call)
+					prefixes[byte(k)] = true
+				}
+			}
+		})
+		okEsc := len(prefixAppends) > 0 && len(edges) > 0
+		for _, e := range edges {
+			lead := false
+			for _, pa := range prefixAppends {
+				if edgeDominates(esc, e.If.Block(), e.Succ, pa.Block()) || e.If.Block().Succs[e.Succ] == pa.Block() {
+					lead = true
+				}
+				// `a == x || a == y` : the true edges of both comparisons join in the appending block
+				for _, p := range pa.Block().Preds {
+					if p == e.If.Block() {
+						lead = true
+					}
+				}
+			}
+			if !lead {
+				okEsc = false
+			}
+		}
+		for pb := range prefixes {
+			if pb != '\\' && !quoteChars[pb] {
+				okEsc = false
+			}
+		}
+		need := []byte{'\\'}
+		for q := range quoteChars {
+			need = append(need, q)
+		}
+		missing := ""
+		for _, b := range need {
+			if !set[b] {
+				missing += fmt.Sprintf(" %q", string(rune(b)))
+			}
+		}
+		switch {
+		case !okEsc:
+			r.viol(rule, name, "escape:prefix-on-recognised-bytes", c.Pos(esc.Pos()), "escapeSQL does not prefix an escape byte (backslash, or the doubled quote) on every edge where it recognised a byte of its escaped set")
+		case missing != "":
+			r.viol(rule, name, "escape:covers-quote-char", c.Pos(esc.Pos()), "escapeSQL does not escape"+missing+", which GetRewriteSQL relies on (the quote character it wraps byte strings with, and the escape character itself): a bound value can terminate its literal")
+		default:
+			r.ok(rule, name, "escape:prefix-on-recognised-bytes", c.Pos(esc.Pos()), "an escape byte is appended on every recognised-byte edge")
+			r.ok(rule, name, "escape:covers-quote-char", c.Pos(esc.Pos()), fmt.Sprintf("the escaped set contains the backslash and the quote character used by GetRewriteSQL (%d comparisons)", len(edges)))
+		}
+		// mode awareness: the client can switch the backend's reading of backslashes (SET sql_mode is passed through), so
+		// the escaping must depend on the session's sql_mode
+		settable := false
+		setStr := c.seMethod("setStringSessionVariable")
+		for _, s := range c.callSites(func(cc *ssa.CallCommon) bool { return setStr != nil && callsFunc(cc, setStr) }) {
+			cc := callCommon(s.In)
+			if len(cc.Args) >= 2 {
+				if k, ok := constString(cc.Args[1]); ok && k == "sql_mode" {
+					settable = true
+				}
+			}
+		}
+		fSessVars := c.Field(serverRel, "SessionExecutor", "sessionVariables")
+		switch {
+		case !settable:
+			r.ok(rule, name, "escape:mode-aware", c.Pos(esc.Pos()), "sql_mode is not passed through from the client: one escaping suffices")
+		default:
+			// does a branch of esc depend on a parameter other than the text?
+			var modeParam *ssa.Parameter
+			for _, p := range esc.Params[1:] {
+				dep := false
+				allInstrs(esc, func(in ssa.Instruction) {
+					if iff, ok := in.(*ssa.If); ok && dependsOnParam(iff.Cond, p, 4) {
+						dep = true
+					}
+				})
+				if dep {
+					modeParam = p
+				}
+			}
+			if modeParam != nil {
+				// the quote character is recognised whatever the mode: in the mode-independent part, or on both mode edges
+				var modeEdges []CondEdge
+				allInstrs(esc, func(in ssa.Instruction) {
+					if iff, ok := in.(*ssa.If); ok && dependsOnParam(iff.Cond, modeParam, 4) {
+						modeEdges = append(modeEdges, CondEdge{If: iff, Succ: 0, Val: true}, CondEdge{If: iff, Succ: 1, Val: false})
+					}
+				})
+				for q := range quoteChars {
+					inT, inF, inN := false, false, false
+					allInstrs(esc, func(in ssa.Instruction) {
+						b, ok := in.(*ssa.BinOp)
+						if !ok || b.Op != token.EQL {
+							return
+						}
+						if k, ok := constInt(b.Y); !ok || byte(k) != q {
+							return
+						}
+						t, f := false, false
+						for _, me := range modeEdges {
+							if edgeDominates(esc, me.If.Block(), me.Succ, b.Block()) {
+								if me.Succ == 0 {
+									t = true
+								} else {
+									f = true
+								}
+							}
+						}
+						switch {
+						case t:
+							inT = true
+						case f:
+							inF = true
+						default:
+							inN = true
+						}
+					})
+					if inN || (inT && inF) {
+						r.ok(rule, name, "escape:quote-in-every-mode", c.Pos(esc.Pos()), "the quote character is escaped on both sides of the mode branch")
+					} else {
+						r.viol(rule, name, "escape:quote-in-every-mode", c.Pos(esc.Pos()), "in one of the two sql_mode branches the quote character is not escaped: a bound value can terminate its literal in that mode")
+					}
+				}
+			}
+			if modeParam == nil {
+				r.viol(rule, name, "escape:mode-aware", c.Pos(esc.Pos()), "the escaping is a function of the text alone, but SET sql_mode is passed through to the backend: with NO_BACKSLASH_ESCAPES a backslash-escaped quote ends the literal and the rest of the bound value is read as SQL; no single escaping is right in both modes")
+			} else {
+				// the mode reaching the execution path comes from the session's variables
+				okMode, why := false, "the sql_mode flag of the escaping is not derived from the session's variables on the COM_STMT_EXECUTE path"
+				for _, ci := range callsIn(exec, func(cc *ssa.CallCommon) bool { f := staticCallee(cc); return f != nil && rewriteFns[f] }) {
+					cc := callCommon(ci)
+					f := staticCallee(cc)
+					if f != rewrite {
+						why = "COM_STMT_EXECUTE uses the default-mode rewrite, whatever sql_mode the session has set"
+						continue
+					}
+					for _, a := range cc.Args[1:] {
+						if call, ok := stripValue(a).(*ssa.Call); ok {
+							if g := staticCallee(&call.Call); g != nil && fSessVars != nil && readsField(g, fSessVars, 2, c) {
+								okMode = true
+							}
+						}
+					}
+				}
+				if okMode {
+					r.ok(rule, name, "escape:mode-aware", c.Pos(esc.Pos()), "the escaping branches on a mode flag that handleStmtExecute derives from the session's sql_mode variable")
+				} else {
+					r.viol(rule, name, "escape:mode-aware", c.Pos(esc.Pos()), why)
+				}
+			}
+		}
+	}
+	// ---- exec
+	{
+		name := c.FuncName(exec)
+		hqs := callsIn(exec, func(cc *ssa.CallCommon) bool { return callsFunc(cc, hq) })
+		rws := callsIn(exec, func(cc *ssa.CallCommon) bool { f := staticCallee(cc); return f != nil && rewriteFns[f] })
+		bds := callsIn(exec, func(cc *ssa.CallCommon) bool { return callsFunc(cc, bind) })
+		if len(hqs) != 1 || len(rws) != 1 || len(bds) != 1 {
+			r.undecided(rule, name, "exec:shape", c.Pos(exec.Pos()), "expected one handleQuery, one GetRewriteSQL and one bindStmtArgs call")
+		} else {
+			sqlArg := callCommon(hqs[0]).Args[len(callCommon(hqs[0]).Args)-1]
+			fSQL := c.Field(serverRel, "Stmt", "sql")
+			good := true
+			nRew := 0
+			for _, l := range phiLeaves(sqlArg) {
+				if ex, ok := l.(*ssa.Extract); ok && ex.Tuple == rws[0].(ssa.Value) && ex.Index == 0 {
+					nRew++
+					continue
+				}
+				if loadedField(l) == fSQL {
+					// the prepared text itself is executed only where no parameter was bound: not after bindStmtArgs
+					if ld, ok := l.(ssa.Instruction); ok && (ld.Block() == bds[0].Block() || blockReachable(bds[0].Block(), ld.Block())) {
+						good = false
+					}
+					continue
+				}
+				good = false
+			}
+			if good && nRew == 1 && dominatedByNilErr(rws[0], bds[0].(*ssa.Call)) {
+				// the raw text is used only when the statement has no parameters: the rewrite is on the paramCount>0 edge
+				r.ok(rule, name, "exec:runs-rewritten-text", c.Pos(hqs[0].Pos()), "the text executed is GetRewriteSQL's result (after bindStmtArgs succeeded) or, for a statement without parameters, the prepared text")
+			} else {
+				r.viol(rule, name, "exec:runs-rewritten-text", c.Pos(hqs[0].Pos()), "the text executed for a statement with parameters is not GetRewriteSQL's result after a successful bindStmtArgs")
+			}
+		}
+	}
+}
+
+// findMakeInterface finds the MakeInterface through which `leaf` (already stripped) was reached from raw value v.
+func findMakeInterface(v ssa.Value, leaf ssa.Value) *ssa.MakeInterface {
+	seen := map[ssa.Value]bool{}
+	var walk func(x ssa.Value, d int) *ssa.MakeInterface
+	walk = func(x ssa.Value, d int) *ssa.MakeInterface {
+		if x == nil || seen[x] || d > 8 {
+			return nil
+		}
+		seen[x] = true
+		switch y := x.(type) {
+		case *ssa.MakeInterface:
+			if stripValue(y.X) == leaf || y.X == leaf {
+				return y
+			}
+			return nil
+		case *ssa.Phi:
+			for _, e := range y.Edges {
+				if m := walk(e, d+1); m != nil {
+					return m
+				}
+			}
+		case *ssa.ChangeInterface:
+			return walk(y.X, d+1)
+		case *ssa.UnOp:
+			if y.Op == token.MUL {
+				if cell, ok := y.X.(*ssa.Alloc); ok {
+					if sts, _, ok := reachingStores(cell, y); ok {
+						for _, s := range sts {
+							if m := walk(s.Val, d+1); m != nil {
+								return m
+							}
+						}
+					}
+				}
+			}
+		}
+		return nil
+	}
+	return walk(v, 0)
+}
+
+func sortStrings(a []string) {
+	for i := 1; i < len(a); i++ {
+		for j := i; j > 0 && a[j] < a[j-1]; j-- {
+			a[j], a[j-1] = a[j-1], a[j]
+		}
+	}
+}
+
+// dependsOnParam: v is computed from parameter p (through unary/binary operators and conversions).
+func dependsOnParam(v ssa.Value, p *ssa.Parameter, depth int) bool {
+	v = stripValue(v)
+	if v == ssa.Value(p) {
+		return true
+	}
+	if depth == 0 {
+		return false
+	}
+	switch x := v.(type) {
+	case *ssa.UnOp:
+		return dependsOnParam(x.X, p, depth-1)
+	case *ssa.BinOp:
+		return dependsOnParam(x.X, p, depth-1) || dependsOnParam(x.Y, p, depth-1)
+	case *ssa.Convert:
+		return dependsOnParam(x.X, p, depth-1)
+	case *ssa.Phi:
+		for _, e := range x.Edges {
+			if dependsOnParam(e, p, depth-1) {
+				return true
+			}
+		}
+	}
+	return false
+}
+
+// readsField: fn (or a module callee, depth-bounded) loads field f.
+func readsField(fn *ssa.Function, f *types.Var, depth int, c *Ctx) bool {
+	found := false
+	allInstrs(fn, func(in ssa.Instruction) {
+		if found {
+			return
+		}
+		if fa, ok := in.(*ssa.FieldAddr); ok && fieldOfAddr(fa) == f {
+			found = true
+			return
+		}
+		if depth > 0 {
+			if cc := callCommon(in); cc != nil {
+				if g := staticCallee(cc); g != nil && g != fn && c.InModule(g) && len(g.Blocks) > 0 && readsField(g, f, depth-1, c) {
+					found = true
+				}
+			}
+		}
+	})
+	return found
 }
